@@ -5,6 +5,7 @@
    is in the section "receiver" below as far as it is proved. *)
 From Via Require Import M_Char M_Parse M_Receive P_Parse.
 From Via Require Import P_Frag P_Term.
+From Via Require Import M_Imp Gen_Parse P_Imp.
 Local Open Scope N_scope.
 
 Theorem C01_request_line_fragments : forall L a r b, rl_valid r = false ->
@@ -198,3 +199,18 @@ Print Assumptions C01_header_block_fragments.
 Print Assumptions C01_request_head_fragments.
 Print Assumptions C01_chunk_fragments.
 Print Assumptions C01_receive_fragments.
+
+(* ---- the tie to the source, as a theorem ----
+   The character-level parser functions of the model are not only compared with the code on generated inputs: the bodies
+   of the C++ functions (parse_char) are translated from clang's AST on every run (translate/parse.py -> Gen_Parse.v, a
+   term of the small imperative language of M_Imp.v), and the model function is proved to compute, for EVERY state,
+   character and limit configuration (strict and lenient CRLF), exactly what the translated body computes.  A change of
+   the source that changes what parse_char does makes this theorem fail. *)
+Theorem C01_request_line_model_is_the_source : forall L r c,
+  run_body (rl_lim L) c (rl_src L) (rl_store r) = (rl_store (fst (rl_parse_char L r c)), snd (rl_parse_char L r c)).
+Proof. exact rl_parse_char_is_the_source. Qed.
+Theorem C01_field_line_model_is_the_source : forall L f c,
+  run_body (fl_lim L) c (fl_src L) (fl_store f) = (fl_store (fst (fl_parse_char L f c)), snd (fl_parse_char L f c)).
+Proof. exact fl_parse_char_is_the_source. Qed.
+Print Assumptions C01_request_line_model_is_the_source.
+Print Assumptions C01_field_line_model_is_the_source.
